@@ -184,12 +184,34 @@ func buildTemplates() []tmpl {
 	for _, s := range []int{0, 2, 3, 11} {
 		out = append(out, tmpl{"author", false, "hint-sheet", s})
 	}
+	// the import graph family: one sheet reached several times (see importGraphCarriers)
+	for _, c := range importGraphCarriers {
+		out = append(out, tmpl{"author", false, c, 2}, tmpl{"author", true, c, 2}, tmpl{"author", false, c, 3})
+	}
 	out = append(out, tmpl{"author", false, "style-attr", -1}, tmpl{"author", true, "style-attr", -1}, tmpl{"author", false, "hint-attr", -1})
 	for _, c := range []string{"media+", "media-"} {
 		out = append(out, tmpl{"user", false, c, 2}, tmpl{"user", true, c, 2}, tmpl{"ua", false, c, 2})
 	}
 	return out
 }
+
+// importGraphCarriers: carriers in which the sheet holding the declaration is reached more than
+// once, or through a cycle.  "Deferred" = added when the document is finished, i.e. after the
+// imports / sheets of every template placed later, so that in a shared sheet the templates placed
+// in between sit between the two inclusions.
+//
+//	reimport         @import "f" now, @import "f" again deferred (same sheet, same spelling)
+//	reimport-sp      the same, the second @import spells the URL differently (./f, mem://doc/f)
+//	diamond          @import "g1" now, @import "g2" deferred; g1 and g2 both @import "f"
+//	reimport-media+  @import "f" screen now (dead), @import "f" print deferred (live)
+//	reimport-media-  @import "f" print now (live), @import "f" screen deferred (dead)
+//	cycle-self       @import "f"; f imports itself before its rule
+//	cycle-2          @import "f1"; f1 imports f2, f2 imports f1; the rule is in f1 or f2
+//	link-twice       <link href=f> now, the same <link> again deferred (last sheet of the document)
+//	link+import      <link href=f> now, <style>@import "f"</style> deferred
+var importGraphCarriers = []string{"reimport", "reimport-sp", "diamond", "reimport-media+", "reimport-media-", "cycle-self", "cycle-2", "link-twice", "link+import"}
+
+func isLinkCarrier(c string) bool { return c == "link" || c == "link-twice" || c == "link+import" }
 
 // hostSheet is a style sheet under construction: @import rules must come first in the text.
 type hostSheet struct {
@@ -211,13 +233,19 @@ type builder struct {
 	ph     *hostSheet
 	user   []*hostSheet
 	author []*authorHost
+	// deferred actions run, in order, when the document is finished
+	deferred []func()
+	// cur is the author sheet element being filled (the link-* carriers need it)
+	cur *authorHost
 }
 
 type authorHost struct {
 	kind  string
 	media []string
 	file  string
+	sp    int
 	host  *hostSheet
+	alias bool // a second <link> to a file another authorHost fills
 }
 
 func (b *builder) decl(prop string, imp bool) Decl {
@@ -237,6 +265,10 @@ func (b *builder) file(s *Sheet) string {
 
 func (b *builder) finish() {
 	d := b.doc
+	for _, f := range b.deferred {
+		f()
+	}
+	b.deferred = nil
 	if b.ua != nil {
 		d.UA = b.ua.sheet()
 	} else {
@@ -251,8 +283,10 @@ func (b *builder) finish() {
 	for _, a := range b.author {
 		as := AuthorSheet{Kind: a.kind, Media: a.media}
 		if a.kind == "link" {
-			as.File = a.file
-			*d.Files[a.file] = *a.host.sheet()
+			as.File, as.Sp = a.file, a.sp
+			if !a.alias {
+				*d.Files[a.file] = *a.host.sheet()
+			}
 		} else {
 			as.Sheet = a.host.sheet()
 		}
@@ -280,6 +314,61 @@ func (b *builder) place(host *hostSheet, carrier string, s []Complex, decls []De
 	switch carrier {
 	case "top", "link", "mediaattr-", "mediaattr+", "hint-sheet":
 		host.body = append(host.body, rule)
+	case "reimport", "reimport-sp":
+		f := b.file(&Sheet{Items: []Item{rule}})
+		host.imports = append(host.imports, Item{Kind: "import", File: f, Var: b.nDecl})
+		again := Item{Kind: "import", File: f, Var: b.nDecl / 4}
+		if carrier == "reimport-sp" {
+			again.Sp = 1 + b.nDecl%2
+		}
+		b.deferred = append(b.deferred, func() { host.imports = append(host.imports, again) })
+	case "diamond":
+		f := b.file(&Sheet{Items: []Item{rule}})
+		g1 := b.file(&Sheet{Items: []Item{{Kind: "import", File: f}}})
+		g2 := b.file(&Sheet{Items: []Item{{Kind: "import", File: f, Sp: b.nDecl % 3}}})
+		host.imports = append(host.imports, Item{Kind: "import", File: g1})
+		b.deferred = append(b.deferred, func() { host.imports = append(host.imports, Item{Kind: "import", File: g2}) })
+	case "reimport-media+", "reimport-media-":
+		f := b.file(&Sheet{Items: []Item{rule}})
+		m1, m2 := []string{"screen"}, []string{"print"}
+		if carrier == "reimport-media-" {
+			m1, m2 = m2, m1
+		}
+		host.imports = append(host.imports, Item{Kind: "import", File: f, Media: m1})
+		b.deferred = append(b.deferred, func() { host.imports = append(host.imports, Item{Kind: "import", File: f, Media: m2}) })
+	case "cycle-self":
+		// the file imports itself: the inner @import loads nothing, the rule applies once
+		sh := &Sheet{}
+		f := b.file(sh)
+		sh.Items = []Item{{Kind: "import", File: f, Sp: b.nDecl % 3}, rule}
+		host.imports = append(host.imports, Item{Kind: "import", File: f})
+	case "cycle-2":
+		// f1 -> f2 -> f1: the innermost @import loads nothing; the rule sits in f1 or in f2
+		s1, s2 := &Sheet{}, &Sheet{}
+		f1, f2 := b.file(s1), b.file(s2)
+		s1.Items = []Item{{Kind: "import", File: f2}}
+		s2.Items = []Item{{Kind: "import", File: f1, Sp: b.nDecl % 3}}
+		if b.nDecl%2 == 0 {
+			s1.Items = append(s1.Items, rule)
+		} else {
+			s2.Items = append(s2.Items, rule)
+		}
+		host.imports = append(host.imports, Item{Kind: "import", File: f1})
+	case "link-twice":
+		// host is the linked file; the same file is linked once more by the last element of the head
+		host.body = append(host.body, rule)
+		file, sp := b.cur.file, b.nDecl%3
+		b.deferred = append(b.deferred, func() {
+			b.author = append(b.author, &authorHost{kind: "link", file: file, sp: sp, alias: true})
+		})
+	case "link+import":
+		// host is the linked file; a later <style> imports it again
+		host.body = append(host.body, rule)
+		file, sp := b.cur.file, b.nDecl%3
+		b.deferred = append(b.deferred, func() {
+			a := b.newAuthor("style", nil)
+			a.host.imports = append(a.host.imports, Item{Kind: "import", File: file, Sp: sp})
+		})
 	case "import":
 		f := b.file(&Sheet{Items: []Item{rule}})
 		host.imports = append(host.imports, Item{Kind: "import", File: f})
@@ -439,7 +528,7 @@ func buildTuple(ts []tmpl, arrangement int, variant int) caseIn {
 				a = b.newAuthor("style", []string{"screen"})
 			case t.carrier == "mediaattr+":
 				a = b.newAuthor("style", []string{"tv", "PRINT"})
-			case t.carrier == "link":
+			case isLinkCarrier(t.carrier):
 				a = b.newAuthor("link", nil)
 			case arrangement >= 1 && sharedAuthor != nil:
 				a = sharedAuthor
@@ -461,6 +550,7 @@ func buildTuple(ts []tmpl, arrangement int, variant int) caseIn {
 				lastPlain.Nested = append(lastPlain.Nested, Item{Kind: "rule", Sel: nsel, Decls: d})
 				continue
 			}
+			b.cur = a
 			b.place(a.host, t.carrier, s, d)
 			if t.carrier == "top" && a == sharedAuthor && len(a.host.body) > 0 {
 				lastPlainHost, lastPlainIdx = a.host, len(a.host.body)-1
@@ -507,6 +597,7 @@ var reduced = func() []int {
 		"author!/top/2": true, "author!/top/3": true,
 		"author/link/2": true, "author/import/2": true, "author/media+/2": true, "author/media-/2": true,
 		"author/nest&/2": true, "author/nestrel/2": true, "author/late-import/2": true, "author/hint-sheet/2": true,
+		"author/reimport/2":    true,
 		"author/style-attr/-1": true, "author!/style-attr/-1": true, "author/hint-attr/-1": true,
 	}
 	var out []int
@@ -528,6 +619,10 @@ func nTriplesEx(tier string) int {
 	}
 	return 0
 }
+
+// maxGeneratedImports: a random document in which the reference follows more @import rules than
+// this is drawn again.
+const maxGeneratedImports = 48
 
 func nPairs() int { return len(templates)*len(templates)*2 + len(nestedInside) }
 
@@ -580,6 +675,12 @@ func genCase(r *rand.Rand, i int, tier string) caseIn {
 			in.Kind = "random"
 			in.Regen = try
 			in.Doc.link()
+			// repeated imports of sheets that import repeatedly multiply: keep documents small
+			if fl := flatten(in.Doc, in.Media, in.Hints, in.Forms); fl.stats.live > maxGeneratedImports {
+				in.Regen = 0
+				try = -1
+				continue
+			}
 			if why := knownDefectTrigger(in.Doc, in.Media, in.Hints, in.Forms); why == "" || try >= 20 {
 				break
 			}
